@@ -65,12 +65,12 @@ def other_meter(fam, rng, tz):
     nothing of it may reach the model under observation."""
     import opendsm.eemeter as em
     if fam.kind in ("daily", "billing"):
-        st = {"weekday_weekend": {"friday": "weekend", "sunday": "weekday"}, "season": {"april": "winter", "october": "summer"}}
+        st = {"weekday_weekend": {"monday": "weekend", "sunday": "weekday"}, "season": {"april": "winter", "october": "summer"}}
         df = FT.daily_baseline_df(rng, tz=tz, kind="both", n=120, noise=0.05, weekend=0.4)
         m2 = em.DailyModel(settings=st).fit(em.DailyBaselineData(df, is_electricity_data=True), ignore_disqualification=True)
         m2.predict(em.DailyReportingData(FT.daily_reporting_df(rng, tz, "2019-03-01", 40), is_electricity_data=True), ignore_disqualification=True)
-        em.DailyModel.from_json(m2.to_json())
         em.BillingModel()
+        em.DailyModel.from_json(m2.to_json())        # the model constructed LAST has another weekday/season map than the one under observation
     elif fam.kind == "hourly":
         f2 = FT.Family("hourly:bins8:ghi" if not fam.ghi else "hourly:robust")
         b2 = f2.baseline_frame(rng, tz=tz, days=135)
